@@ -609,7 +609,9 @@ pub fn controller_main(def: &CheckDef, tier: Tier) -> i32 {
             continue;
         }
         let hint = sp.chunk_hint();
-        let chunk = if hint > 0 { hint } else { (n / (nworkers as u64 * 6)).clamp(1, 250_000) };
+        // at most 6 chunks per worker and space, and at least 64 cases per chunk: every chunk is a
+        // process (about 40 ms to start), which dominated the many small spaces of C18
+        let chunk = if hint > 0 { hint } else { (n / (nworkers as u64 * 6)).clamp(64, 250_000) };
         let mut a = 0;
         while a < n {
             let b = (a + chunk).min(n);
